@@ -216,9 +216,9 @@ func c44KB(x, y c44Node) bool {
 type c44Model struct {
 	pos         [][]int
 	gates       int
-	fed         int         // packets fed in total
-	feedOf      []int       // seq -> peer op index
-	must        []bool      // seq -> must be handled
+	fed         int    // packets fed in total
+	feedOf      []int  // seq -> peer op index
+	must        []bool // seq -> must be handled
 	mustClosed  map[[2]int]bool
 	action      map[int]string
 	wantHandler int // 0 = either, 1 / 2
